@@ -195,3 +195,13 @@ for _p, _mods in {"C01": (_IR_CACHE, _IR_HANDLERS), "C04": (_IR_REGEN,), "C05": 
                   "C09": (_IR_HANDLERS, _IR_CACHE, _IR_REGEN), "C10": (_IR_REGEN,), "C12": (_IR_CACHE,), "C18": (_IR_REGEN,)}.items():
     for _m in _mods:
         FACT_OBLIGATIONS.setdefault(_p, []).append(_m)
+
+# Start is translated too (loops included); proved so far: its creation block equals Sx.createNew for all states
+# (FactsIr.start_create_block_partial). FactsIrStartRun holds no theorem: it EXECUTES the regenerated tree of Start and Sx.start
+# on 48 concrete states/requests covering every branch and compares state, result and events (#guard; a test, labelled so).
+_IR_START = ("Sessions.FactsIrStart", ["FactsIr.start_create_block_partial", "FactsIr.start_shape", "FactsIr.runs_append"])
+_IR_START_RUN = ("Sessions.FactsIrStartRun", [])
+for _p in ("C01", "C02", "C18"):
+    FACT_OBLIGATIONS.setdefault(_p, []).append(_IR_START)
+for _p in ("C03", "C04", "C05", "C06"):
+    FACT_OBLIGATIONS.setdefault(_p, []).append(_IR_START_RUN)
